@@ -79,6 +79,15 @@ CHECKS = {
          "Trusted: Lean kernel + standard axioms; page decoding is C01/C03; pandas comparison semantics on missing cells as modelled "
          "(don't-care for != / not in).",
          "Lean 4 proof (list algebra over the evaluation/masking logic) + brute-force oracle", "§6 C13"),
+ "C04": ("Lean 4 theorems over a model of the writer's statistics bookkeeping: min/max are lower/upper bounds that are attained by a stored "
+         "non-null value, exist iff the chunk has a non-null value, and do not depend on the paging; the null tally accumulated page "
+         "by page equals the number of missing cells for every split into pages; categorical bounds taken from the labels present are "
+         "exact (which branch the code uses is regenerated from write_column; the category-order variant is refuted by a proved "
+         "witness - the repaired defect); sorted_partitioned_columns is sound given exact statistics. Tied to the code by comparing "
+         "the model's statistics with the Statistics struct of every written chunk; raw and logical brute-force oracles on the files.",
+         "Trusted: Lean kernel + standard axioms; rank mapping of ordered scalars; pandas max/min skip missing values (contract). "
+         "UTF-8 byte order = code point order is assumed for text (enumerated by the harness, not proved).",
+         "Lean 4 proof + per-chunk correspondence and brute-force oracle", "§6 C04"),
 }
 
 def main():
